@@ -28,9 +28,15 @@ def call_(I, fn, args, kwargs, site=None):
         kw.update(kwargs)
         return call_(I, fn.fn, list(fn.args) + list(args), kw, site)
     if isinstance(fn, AbstractMethod):
-        return apply_contract(I, fn.contract, [fn.self_val] + list(args), kwargs, callee_label="%s.%s" % (fn.self_val.ty.name, fn.name))
+        lab = "%s.%s" % (fn.self_val.ty.name, fn.name)
+        if fn.contract.is_async:
+            return Coro(lambda: apply_contract(I, fn.contract, [fn.self_val] + list(args), kwargs, callee_label=lab), lab)
+        return apply_contract(I, fn.contract, [fn.self_val] + list(args), kwargs, callee_label=lab)
     if isinstance(fn, SV) and isinstance(fn.ty, TFn):
-        return apply_contract(I, fn.ty.contract, [fn] + list(args), kwargs, callee_label=fn.ty.contract.key)
+        con = fn.ty.contract
+        if con.is_async:
+            return Coro(lambda: apply_contract(I, con, [fn] + list(args), kwargs, callee_label=con.key), con.key)
+        return apply_contract(I, con, [fn] + list(args), kwargs, callee_label=con.key)
     if isinstance(fn, ExternalRef):
         return I.B.call_external(I, fn, args, kwargs)
     if isinstance(fn, Builtin):
@@ -210,6 +216,11 @@ def bind_contract_params(I, con, args, kwargs, fi):
         if n.startswith("*"):
             star = n
             break
+    dstar = None
+    for n in names:
+        if n.startswith("**"):
+            dstar = n
+    star = star if (star is not None and not star.startswith("**")) else None
     pos = [n for n in names if not n.startswith("*")]
     if star is None and len(args) > len(pos):
         raise Unsupported("too many arguments for abstract contract %s" % con.key)
@@ -217,10 +228,16 @@ def bind_contract_params(I, con, args, kwargs, fi):
         bound[n] = v
     if star is not None:
         bound[star[1:]] = VTuple(list(args[len(pos) :]))
+    extra_kw = {}
     for k, v in kwargs.items():
         if k in bound:
             raise Unsupported("duplicate argument for abstract contract")
-        bound[k] = v
+        if k in pos or dstar is None:
+            bound[k] = v
+        else:
+            extra_kw[k] = v
+    if dstar is not None:
+        bound[dstar[2:]] = VDict(extra_kw)
     for n in pos:
         if n not in bound:
             bound[n] = None
@@ -349,6 +366,8 @@ def apply_contract(I, con, args, kwargs, fi=None, callee_label=None):
             ctx.assume(f)
         if not ctx.feasible():
             raise PathEnd()
+        if con.emits_after is not None:
+            con.emits_after(post, ctx, "return", res, **pviews)
         return res
     cls = exc_class_of(I, which)
     exc = I.sym_exception(cls, short(which))
@@ -360,6 +379,8 @@ def apply_contract(I, con, args, kwargs, fi=None, callee_label=None):
         ctx.assume(f)
     if not ctx.feasible():
         raise PathEnd()
+    if con.emits_after is not None:
+        con.emits_after(post, ctx, "raise", exc, **views_of(post, typed_bound, post.new_heap))
     raise PyRaise(exc)
 
 
